@@ -94,8 +94,8 @@ PROPS["C01"] = dict(
         H(M01, "c01_cancel2_n2t2", fetch=4, bounds="n=2,t=2ns; add,add,[fetch],cancel(sym),drain; times<=5", tier="thorough", mem=20),
         H(M01, "c01_cancel2_n2t1", fetch=5, bounds="n=2,t=1ns; add,add,[fetch],cancel(sym),drain; times<=4", tier="thorough", mem=20),
         H(M01, "c01_script4_n1t2", fetch=4, bounds="n=1,t=2ns; 4 symbolic ops over {add,fetch,cancel(i)} then drain; times<=5", tier="thorough", mem=24),
-        H(M01, "c01_script4_n2t1", fetch=5, bounds="n=2,t=1ns; 4 symbolic ops then drain; times<=4", tier="thorough"),
-        H(M01, "c01_script5_n2t2", fetch=4, bounds="n=2,t=2ns; 5 symbolic ops then drain; times<=5", tier="thorough"),
+        H(M01, "c01_script4_n2t1", fetch=5, mem=30, bounds="n=2,t=1ns; 4 symbolic ops then drain; times<=4", tier="experimental"),
+        H(M01, "c01_script5_n2t2", fetch=4, mem=30, bounds="n=2,t=2ns; 5 symbolic ops then drain; times<=5", tier="experimental"),
     ],
 )
 
